@@ -126,16 +126,24 @@ Section Frame.
     (forall uri cert al, asym_for uri cert = Some al -> 0 <= a_rsl al).
 End Frame.
 
-(* ---- the dispatcher's hand-off (client): the HACK around OpenSecureChannelResponse ---- *)
-Record dstate := { d_handlers : list N; d_locked : bool; d_open_in_flight : bool }.
+(* ---- the dispatcher's hand-off (client): the HACK around OpenSecureChannelResponse ----
+   open() publishes the id of the request it waits for (openingReqID, 0 = none) and clears it when it returns; whenever it
+   returns it unlocks rcvLocker.  The dispatcher, after popping the handler of a delivered message, locks rcvLocker for an
+   OpenSecureChannelResponse and then waits until it is unlocked.  [fixed = true]: it locks only if the message's request
+   id is the published one (lockIf); [fixed = false]: it locked for every OpenSecureChannelResponse that had a handler. *)
+Record dstate := { d_handlers : list N; d_opening : option N }.    (* None: no open() in flight *)
 Inductive dmsg := DMsg (req : N) (is_osc_response : bool).
-(* one dispatcher iteration on a received message; None = the dispatcher blocks in waitIfLock until open() returns *)
-Definition disp_step (s : dstate) (m : dmsg) : option dstate :=
+(* one dispatcher iteration on a received message; None = the dispatcher waits in waitIfLock for ever *)
+Definition disp_step (fixed : bool) (s : dstate) (m : dmsg) : option dstate :=
   let '(DMsg req osc) := m in
   if existsb (N.eqb req) (d_handlers s) then
     let hs := filter (fun x => negb (x =? req)%N) (d_handlers s) in
-    if osc then
-      if d_open_in_flight s then Some {| d_handlers := hs; d_locked := false; d_open_in_flight := false |}  (* open() unlocks *)
-      else None                                                   (* nobody will ever unlock: the channel stops receiving *)
-    else Some {| d_handlers := hs; d_locked := false; d_open_in_flight := d_open_in_flight s |}
+    let locks := if fixed then osc && negb (req =? 0)%N && (match d_opening s with Some r => (r =? req)%N | None => false end)
+                 else osc in
+    if locks then
+      match d_opening s with
+      | Some _ => Some {| d_handlers := hs; d_opening := None |}      (* open() handles the response, returns, unlocks *)
+      | None => None                                                  (* nobody will ever unlock *)
+      end
+    else Some {| d_handlers := hs; d_opening := d_opening s |}
   else Some s.
